@@ -687,12 +687,16 @@ func statefulLibrary(name string) string {
 // value some earlier call left there at worst). The few such objects the module legitimately uses are listed with the reason.
 
 var contextFreeForeign = map[string]string{
-	"sdk/codec.Codec":            "stateless (de)serialisation over the interface registry fixed at wiring time",
-	"sdk/codec.BinaryCodec":      "stateless (de)serialisation over the interface registry fixed at wiring time",
-	"sdk/codec.JSONCodec":        "stateless (de)serialisation over the interface registry fixed at wiring time",
-	"*sdk/codec.LegacyAmino":     "stateless (de)serialisation over the type table sealed at start-up",
-	"*sdk/codec.ProtoCodec":      "stateless (de)serialisation over the interface registry fixed at wiring time",
-	"sdk/x/params/keeper.Keeper": "Subspace/GetSubspaces hand out the subspace table built at wiring time; values are read with a Context",
+	"sdk/codec.Codec":                   "stateless (de)serialisation over the interface registry fixed at wiring time",
+	"sdk/codec.BinaryCodec":             "stateless (de)serialisation over the interface registry fixed at wiring time",
+	"sdk/codec.JSONCodec":               "stateless (de)serialisation over the interface registry fixed at wiring time",
+	"*sdk/codec.LegacyAmino":            "stateless (de)serialisation over the type table sealed at start-up",
+	"*sdk/codec.ProtoCodec":             "stateless (de)serialisation over the interface registry fixed at wiring time",
+	"sdk/x/params/keeper.Keeper":        "Subspace/GetSubspaces hand out the subspace table built at wiring time; values are read with a Context",
+	"*sdk/baseapp.MsgServiceRouter":     "route table fixed at wiring time (handler lookup by message type)",
+	"*sdk/baseapp.GRPCQueryRouter":      "route table fixed at wiring time",
+	"sdk/codec/types.InterfaceRegistry": "type registry fixed at wiring time (Any resolution)",
+	"sdk/codec/types.AnyUnpacker":       "type registry fixed at wiring time (Any resolution)",
 }
 
 type foreignCall struct {
